@@ -134,6 +134,18 @@ func Load(o Options) (*Program, error) {
 						}
 						if g, ok := (*op).(*ssa.Function); ok && g != f {
 							refs[g]++
+							// a method value refers to its method through a synthetic wrapper
+							if strings.HasPrefix(g.Synthetic, "bound method wrapper") {
+								for _, wb := range g.Blocks {
+									for _, wi := range wb.Instrs {
+										if ci, isCall := wi.(ssa.CallInstruction); isCall {
+											if m := ci.Common().StaticCallee(); m != nil {
+												refs[m]++
+											}
+										}
+									}
+								}
+							}
 						}
 					}
 				}
